@@ -485,8 +485,6 @@ func (x *executor) apply(s step) {
 		}
 		if st.cm != nil {
 			x.capRelation(st, s, capPre[st])
-		} else {
-			x.memWhiteBox(st)
 		}
 	}
 	if len(x.fails) > 0 {
@@ -494,6 +492,15 @@ func (x *executor) apply(s step) {
 	}
 
 	x.readAll(s.Reads, "")
+	if len(x.fails) > 0 {
+		return
+	}
+	// white box last: a disagreement that is visible through the API is reported as such
+	for _, st := range x.stores {
+		if st.cfg.Kind == skMem {
+			x.memWhiteBox(st)
+		}
+	}
 	if len(x.fails) > 0 {
 		return
 	}
@@ -574,8 +581,11 @@ func (x *executor) read(st *liveStore, rd read, suffix string) {
 		// "For each peer the address book returns exactly the addresses whose most recently assigned
 		// expiry lies in the future"
 		x.st["read/addrs"]++
-		got, unknown := basesOf(st.ab.Addrs(uni.pids[rd.Peer]))
+		got, unknown, dups := basesOf(st.ab.Addrs(uni.pids[rd.Peer]))
 		want := m.live(rd.Peer)
+		if dups > 0 {
+			x.st["addrs_answer_repeats_an_address/"+st.cfg.class()]++
+		}
 		if unknown != "" {
 			x.fail(st, "addrs-unknown"+suffix, "Addrs(P%d) returned %s which is not an address of the universe in stored form (own /p2p suffix must be stripped)", rd.Peer, unknown)
 			return
@@ -656,21 +666,22 @@ func (u *universe) envelopeByKey(k string) *record.Envelope {
 	return e.(*record.Envelope)
 }
 
-func basesOf(addrs []ma.Multiaddr) (bases []int, unknown string) {
+func basesOf(addrs []ma.Multiaddr) (bases []int, unknown string, dups int) {
 	seen := map[int]bool{}
 	for _, a := range addrs {
 		b, ok := uni.baseOf[string(a.Bytes())]
 		if !ok {
-			return nil, a.String()
+			return nil, a.String(), 0
 		}
 		if seen[b] {
-			return nil, a.String() + " (twice)"
+			dups++ // answers are compared as sets; a repeated address is only counted
+			continue
 		}
 		seen[b] = true
 		bases = append(bases, b)
 	}
 	sort.Ints(bases)
-	return bases, ""
+	return bases, "", dups
 }
 
 func diff(got, want []int) (extra, missing []int) {
@@ -752,7 +763,9 @@ func (x *executor) memWhiteBox(st *liveStore) {
 	seen := map[[2]int]bool{}
 	for _, e := range d.entries {
 		if e.exp <= m.now {
-			if e.exp <= guaranteed {
+			// (a write at the instant of a tick happens after the tick: it may leave an already expired
+			// entry behind, e.g. UpdateAddrs to a negative TTL, which the NEXT tick removes)
+			if e.exp <= guaranteed && m.peers[e.peer].lastWrite < guaranteed {
 				x.fail(st, "mem-not-collected", "entry A%d of P%d expired at t=+%ds is still stored after the GC tick at t=+%ds (now t=+%ds, ttl %s, in heap: %v)", e.base, e.peer, e.exp-x.base, guaranteed-x.base, m.now-x.base, ttlName(e.ttl), e.inHeap)
 				return
 			}
@@ -910,7 +923,13 @@ func (x *executor) capSync(st *liveStore, s step, cc *capCtx) {
 		}
 		if *me != e {
 			pe, had := pre[k]
-			if perPeer || !had || pe != e || !full {
+			// per-peer cap: an entry may have been evicted by an earlier address of the same call and then
+			// be inserted afresh by a later one: it then carries exactly this call's TTL and expiry
+			fresh := perPeer && uM > capPerPeer && s.TTL > 0 && (s.Kind == opAdd || s.Kind == opSet || s.Kind == opConsume) &&
+				e == (mEntry{ttl: s.TTL, exp: cc.mp.expiryOf(s.TTL)})
+			if fresh {
+				x.st["cap_per_peer_evicted_and_reinserted_in_one_call"]++
+			} else if perPeer || !had || pe != e || !full {
 				x.fail(st, "cap-relation", "after %s entry A%d of P%d has (ttl %s, expiry t=+%ds); statement: (ttl %s, expiry t=+%ds)", s.String(), k, pi, ttlName(e.ttl), e.exp-x.base, ttlName(me.ttl), me.exp-x.base)
 				return
 			}
@@ -967,7 +986,7 @@ func (x *executor) capSync(st *liveStore, s step, cc *capCtx) {
 		}
 	}
 	if perPeer {
-		if lim := max(capPerPeer, uPre+transitions); uR > lim {
+		if lim := max(capPerPeer, uPre) + transitions; uR > lim {
 			x.fail(st, "cap-exceeded", "after %s P%d holds %d unconnected entries (cap %d, %d before, %d moved out of the connected class)", s.String(), pi, uR, capPerPeer, uPre, transitions)
 			return
 		}
